@@ -1,6 +1,6 @@
 """C06 — receive path: exact stream framing, and no failure on any delivered bytes
 (src/ndn/transport/stream_face.py, udp_face.py, encoding/tlv_var.py, appv2.py, app.py)."""
-import asyncio, hashlib, os, re, struct
+import asyncio, contextlib, hashlib, logging, os, re, struct
 import vloop
 from apphelp import AppRig
 from props import c06_extract
@@ -65,7 +65,15 @@ RULE = ('(a) streams of 0..6 packets (types/lengths at the 1/3/5/9-byte TL-numbe
         'drop/duplicate/swap, random bytes and random TLV trees; delivered with the consistent type and with a wrong type, '
         'as a task (faces) and awaited (DummyFace); two packets handed over in one piece; afterwards every still-pending Interest is answered with its Data and every '
         'attached handler is sent a fresh well-formed Interest. '
-        '(c) UDP datagram_received with empty / truncated / valid datagrams, datagrams carrying two packets or trailing bytes, 64 KiB. non-trivial = a malformed packet met a state '
+        '(c) UDP datagram_received with empty / truncated / valid datagrams, datagrams carrying two packets or trailing bytes, 64 KiB; '
+        'every datagram of 0..3 bytes over the byte classes of the framing; datagrams whose outer Type, outer Length or a '
+        'first-level number is written in the 3/5/9-byte form although a shorter one exists (and the largest such values). '
+        '(d) over-long numbers also in the stream pool (Type in every form) and in the reception stream (every packet kind '
+        'with ONE number - outer, first or second level, Type / Length / both - over-long; random ones as a mutation); names '
+        'that are hard to print or look up (empty / non-UTF-8 / 5000-byte generic components, component types 0, 65535, '
+        '65536, 2^32, 2^64-1, digest components of length 0/1/31/33/64, typed-number components of every odd width, no / 300 '
+        'components; optional elements absent) in Interests, parameterised Interests with the right digest, Data, Nacks; '
+        'a share of the reception cases runs with DEBUG logging ON (log lines guarded by isEnabledFor). non-trivial = a malformed packet met a state '
         'with a pending Interest or handler, or a stream was cut inside a TL number; distinct = distinct cases')
 
 LP = 0x64
@@ -228,6 +236,9 @@ def mutations(w, rng, n):
             # two packets handed over in one piece (what a datagram transport does with a datagram carrying two)
             P = base_packets()
             out.append(('concat', w + P[rng.choice(sorted(P))]))
+        elif r < 0.86:
+            # one Type / Length number somewhere in the packet written in a longer form than necessary
+            out.append(('overlong', overlong_random(w, rng)))
         else:
             out.append(('struct', structural(w, rng)))
     return out
@@ -294,6 +305,211 @@ def refit(w):
     return tlnum(t[0]) + tlnum(len(body)) + body
 
 
+# ------------------------------------------------------------ numbers that are not written in their shortest form
+OL_FMT = {3: (b'\xfd', 2), 5: (b'\xfe', 4), 9: (b'\xff', 8)}
+
+
+def olnum(v, width):
+    """v written in the `width`-byte form of a TL number, whether or not a shorter form exists"""
+    if width == 1:
+        assert v <= 0xFC
+        return bytes([v])
+    mark, n = OL_FMT[width]
+    return mark + v.to_bytes(n, 'big')
+
+
+def ol_widths(v):
+    """the widths in which v can be written but should not be"""
+    return [w for w in (3, 5, 9) if w > len(tlnum(v)) and v < 256 ** OL_FMT[w][1]]
+
+
+def _hdr(w):
+    """(type, type end, length, value start) of a well-framed element, or None"""
+    t = read_num(w, 0)
+    l = read_num(w, t[1]) if t else None
+    if l is None or l[1] + l[0] != len(w):
+        return None
+    return t[0], t[1], l[0], l[1]
+
+
+def overlong_here(w, which, width):
+    """the element w with its Type ('T'), its Length ('L') or both ('B') re-written in the given width; None when that
+    is the shortest form of the number anyway"""
+    h = _hdr(w)
+    if h is None:
+        return None
+    ty, te, ln, vs = h
+    tb, lb = w[:te], w[te:vs]
+    if which in 'TB':
+        if width not in ol_widths(ty):
+            return None
+        tb = olnum(ty, width)
+    if which in 'LB':
+        if width not in ol_widths(ln):
+            return None
+        lb = olnum(ln, width)
+    return tb + lb + w[vs:]
+
+
+def overlong_at(w, path, which, width):
+    """descend along `path` (indices of sub-elements) and apply overlong_here there; the Lengths of the enclosing
+    elements are re-computed (shortest form), their Type bytes kept"""
+    if not path:
+        return overlong_here(w, which, width)
+    h = _hdr(w)
+    if h is None:
+        return None
+    body = w[h[3]:]
+    els = split_tlvs(body)
+    if not els or path[0] >= len(els):
+        return None
+    _, s, e = els[path[0]]
+    sub = overlong_at(body[s:e], path[1:], which, width)
+    if sub is None:
+        return None
+    nb = body[:s] + sub + body[e:]
+    return w[:h[1]] + tlnum(len(nb)) + nb
+
+
+def overlong_paths(w, depth=3, fan=3):
+    """paths to the (first `fan`) sub-elements down to `depth`"""
+    out = [[]]
+    h = _hdr(w)
+    if h is None or depth == 0:
+        return out
+    body = w[h[3]:]
+    els = split_tlvs(body) or []
+    for i, (_, s, e) in enumerate(els[:fan]):
+        out += [[i] + p for p in overlong_paths(body[s:e], depth - 1, fan)]
+    if len(els) > fan:
+        out.append([len(els) - 1])
+    return out
+
+
+def overlong_all(w, depth=2, fan=3, widths=(3, 5, 9)):
+    """every (tag, packet) in which ONE element of w (down to `depth`) has its Type, its Length or both over-long"""
+    out, seen = [], set()
+    for path in overlong_paths(w, depth, fan):
+        for which in 'TLB':
+            for width in widths:
+                v = overlong_at(w, path, which, width)
+                if v is not None and v not in seen:
+                    seen.add(v)
+                    out.append(('overlong-%s%d@%d' % (which, width, len(path)), v))
+    return out
+
+
+def overlong_random(w, rng):
+    paths = overlong_paths(w, 4, 4)
+    for _ in range(8):
+        v = overlong_at(w, rng.choice(paths), rng.choice('TTLLB'), rng.choice((3, 3, 5, 9)))
+        if v is not None:
+            return v
+    return overlong_here(refit(w), 'L', 3) or w
+
+
+# ------------------------------------------------------------------------- names that are hard to print / look up
+def odd_components():
+    """(tag, component wire): values and types at the edges of what the printing / comparing helpers distinguish"""
+    if 'oddc' in _cache:
+        return _cache['oddc']
+    C = [('generic-empty', tlv(8, b'')), ('generic-nonutf8', tlv(8, b'\xff\xfe\x80\x00')), ('generic-reserved', tlv(8, b'%=/ +\x7f')),
+         ('generic-dots', tlv(8, b'...')), ('generic-5000', tlv(8, b'k' * 5000)),
+         ('type0', tlv(0, b'z')), ('type65535', tlv(0xffff, b'z')), ('type65536', tlv(0x10000, b'z')),
+         ('type2^32', tlv(2 ** 32, b'z')), ('type2^64-1', tlv(2 ** 64 - 1, b'')), ('keyword', tlv(0x20, b'kw')),
+         ('type253', tlv(0xfd, b'\xfd'))]
+    for t, nm in ((1, 'implicit'), (2, 'params')):
+        for ln in (0, 1, 31, 33, 64):
+            C.append(('%s-digest-len%d' % (nm, ln), tlv(t, bytes(range(1, ln + 1)))))
+    for t in (0x32, 0x34, 0x36):
+        for val in (b'', b'\x00', b'\x00\x00', b'\xff' * 3, b'\x80' + b'\x00' * 4, b'\xff' * 7, b'\xff' * 8,
+                    b'\x00' * 8, b'\x01' * 16, b'\x09' * 1800):
+            C.append(('typed%d-len%d' % (t, len(val)), tlv(t, val)))
+    _cache['oddc'] = C
+    return C
+
+
+def odd_name_packets():
+    """{tag: wire}: Interests (plain, parameterised with the RIGHT digest, signed-looking), Data and Nacks under the
+    prefixes the states of this check use (/h = handler, /a = CanBePrefix pending Interest), whose names contain one odd
+    component; hand-encoded (the library's encoders refuse some of them)"""
+    if 'odd' in _cache:
+        return _cache['odd']
+    O = {}
+    nonce = tlv(0x0a, b'\x00\x00\x00\x2a')
+    ap = tlv(0x24, b'xyz')
+    si = tlv(0x2c, tlv(0x1b, b'\x00'))
+
+    def g(s):
+        return tlv(8, s)
+    for tag, c in odd_components():
+        O['int-odd:' + tag] = tlv(5, tlv(7, g(b'h') + g(b'1') + c) + nonce)
+        dig = tlv(2, hashlib.sha256(ap).digest())
+        # a second ParametersSha256DigestComponent in front of the right one is the odd component's business, not ours
+        O['int-param-odd:' + tag] = tlv(5, tlv(7, g(b'h') + c + dig) + nonce + ap)
+        data = tlv(6, tlv(7, g(b'a') + c) + tlv(0x14, b'') + tlv(0x15, b'odd') + tlv(0x16, tlv(0x1b, b'\x00'))
+                   + tlv(0x17, bytes(32)))
+        O['data-odd:' + tag] = data
+        if tag == 'implicit-digest-len0':
+            # kept out of the stream (reported): a Nack for /a/<ImplicitSha256Digest of length 0> is taken for a Nack of
+            # the pending Interest /a - _on_nack strips the digest component and b'' there also means 'no digest'
+            continue
+        O['nack-odd:' + tag] = tlv(LP, tlv(0x320, tlv(0x321, b'\x96')) + tlv(0x50, tlv(5, tlv(7, g(b'a') + c) + nonce)))
+    c0 = odd_components()
+    for k in (0, 5, 14, 20):
+        tag, c = c0[k]
+        body = tlv(7, g(b'h') + c) + nonce + ap + si
+        sv = tlv(0x2e, bytes(32))
+        dig = tlv(2, hashlib.sha256(ap + si + sv).digest())
+        O['int-signed-odd:' + tag] = tlv(5, tlv(7, g(b'h') + c + dig) + nonce + ap + si + sv)
+        O['lp-token-int-odd:' + tag] = tlv(LP, tlv(0x62, b'\x00' * 4) + tlv(0x50, O['int-odd:' + tag]))
+        _ = body
+    # optional elements absent (what a log line may want to print about them)
+    sig0 = tlv(0x16, tlv(0x1b, b'\x00')) + tlv(0x17, bytes(32))
+    O['data-no-content'] = tlv(6, tlv(7, g(b'a') + g(b'b')) + tlv(0x14, b'') + sig0)
+    O['data-no-metainfo'] = tlv(6, tlv(7, g(b'a') + g(b'b')) + tlv(0x15, b'c') + sig0)
+    O['data-name-only'] = tlv(6, tlv(7, g(b'a') + g(b'b')))
+    O['int-name-only'] = tlv(5, tlv(7, g(b'h') + g(b'1')))
+    O['lp-emptytoken-int'] = tlv(LP, tlv(0x62, b'') + tlv(0x50, tlv(5, tlv(7, g(b'h') + g(b'1')) + nonce)))
+    O['lp-nack-name-only'] = tlv(LP, tlv(0x320, b'') + tlv(0x50, tlv(5, tlv(7, g(b'a')))))
+    O['int-noname-comps'] = tlv(5, tlv(7, b'') + nonce)
+    O['data-noname-comps'] = tlv(6, tlv(7, b'') + tlv(0x15, b''))
+    O['int-300-comps'] = tlv(5, tlv(7, g(b'h') + b''.join(g(b'%d' % i) for i in range(300))) + nonce)
+    O['data-300-comps'] = tlv(6, tlv(7, g(b'a') + b''.join(g(b'%d' % i) for i in range(300))) + tlv(0x15, b''))
+    _cache['odd'] = O
+    return O
+
+
+@contextlib.contextmanager
+def debug_logging(on):
+    """the application runs with DEBUG logging switched on (several log lines of the receive path are guarded by
+    isEnabledFor); records go to a handler that formats them like a real one and swallows what a real one swallows"""
+    if not on:
+        yield
+        return
+
+    class Sink(logging.Handler):
+        def emit(self, record):
+            try:
+                record.getMessage()
+            except Exception:          # noqa - logging.Handler.handleError territory, never the caller's problem
+                pass
+    lg = logging.getLogger('ndn')
+    old = (lg.level, lg.propagate, logging.root.manager.disable)
+    h = Sink()
+    lg.addHandler(h)
+    lg.setLevel(logging.DEBUG)
+    lg.propagate = False
+    logging.disable(logging.NOTSET)
+    try:
+        yield
+    finally:
+        lg.removeHandler(h)
+        lg.setLevel(old[0])
+        lg.propagate = old[1]
+        logging.disable(old[2])
+
+
 def random_tree(rng, depth=0):
     n = rng.randint(0, 3)
     out = b''
@@ -322,7 +538,13 @@ def stream_packets(rng):
             # Type numbers at the sign / width boundaries of the 5- and 9-byte forms, the marker bytes as values
             tlv(0x7fffffff, b'a'), tlv(0x80000000, b'b'), tlv(0xffffffff, b''), tlv(2 ** 32, b'c'),
             tlv(2 ** 63 - 1, b''), tlv(2 ** 63, b'd'), tlv(2 ** 64 - 1, b'e'), tlv(0xfe, b''), tlv(0xff, b'f'),
-            b'\x05\xff' + b'\x00' * 6 + b'\x00\x02zz']
+            b'\x05\xff' + b'\x00' * 6 + b'\x00\x02zz',
+            # the Type number in every over-long form, Type and Length both over-long, over-long forms of the largest
+            # values that have a shorter one, whole Interests framed with over-long numbers
+            b'\xfe\x00\x00\x00\x05\x00', b'\xff' + b'\x00' * 7 + b'\x05\x01a', b'\xfd\x00\x05\xfd\x00\x00',
+            b'\xfd\x00\xfc\x00', b'\xfe\x00\x00\xff\xff\x01b', b'\xff\x00\x00\x00\x00\xff\xff\xff\xff\xfe\x00\x00\x00\x01c',
+            overlong_here(P['int'], 'T', 3), overlong_here(P['int'], 'B', 5), overlong_here(P['data/a'], 'L', 9),
+            overlong_here(P['nack'], 'T', 9)]
     return pool
 
 
@@ -340,13 +562,31 @@ def cases(rng, tier):
     # every valid packet kind and the short malformed envelopes, in an empty and a busy state, both front-ends
     fixed = [P[k] for k in kinds] + [b'', b'\x64', b'\x64\x00', b'\x64\x02\x50\x00', b'\x64\x03\x50\x01\xfd', b'\x05\x00', b'\x06\x00',
                                      b'\x64\x04\xfd\x03\x20\x00', b'\x05\x02\x07\x00', b'\x06\x02\x07\x00']
+    busy_pend = [{'n': '/a/b', 'cbp': False, 'dg': False}, {'n': '/a', 'cbp': True, 'dg': False}, {'n': '/x', 'cbp': False, 'dg': False}]
     for fe in ('v2', 'v1'):
         for busy in (False, True):
-            for i in range(0, len(fixed), 4):
-                yield {'k': 'recv', 'fe': fe,
-                       'pend': [{'n': '/a/b', 'cbp': False, 'dg': False}, {'n': '/a', 'cbp': True, 'dg': False}, {'n': '/x', 'cbp': False, 'dg': False}] if busy else [],
-                       'hand': ['/a', '/h'] if busy else [],
-                       'pkts': [{'w': w.hex(), 'typ': None, 'mode': m, 'tag': 'fixed'} for w in fixed[i:i + 4] for m in ('await', 'task')]}
+            for dbg in (False, True):
+                for i in range(0, len(fixed), 4):
+                    yield {'k': 'recv', 'fe': fe, 'debug': dbg,
+                           'pend': busy_pend if busy else [],
+                           'hand': ['/a', '/h'] if busy else [],
+                           'pkts': [{'w': w.hex(), 'typ': None, 'mode': m, 'tag': 'fixed'} for w in fixed[i:i + 4] for m in ('await', 'task')]}
+    # names that are hard to print (every log line that prints a name, with DEBUG logging off and on), and every packet
+    # kind with ONE Type / Length number - outer, first level, second level - in an over-long form
+    O = odd_name_packets()
+    odd = [('oddname', O[k]) for k in sorted(O)]
+    ol = []
+    for k in ('int', 'int-cbp', 'int-signed', 'int-param', 'data/a/b', 'nack', 'lp-token-int', 'lp-data', 'lp-nofrag'):
+        ol += [('overlong', w) for _, w in overlong_all(P[k], widths=(3, 5, 9) if not quick else (3, 9))]
+    for fe in ('v2', 'v1'):
+        for dbg in (False, True):
+            for i in range(0, len(odd), 4):
+                yield {'k': 'recv', 'fe': fe, 'debug': dbg, 'pend': busy_pend, 'hand': ['/a', '/h'],
+                       'pkts': [{'w': w.hex(), 'typ': None, 'mode': m, 'tag': t} for t, w in odd[i:i + 4] for m in ('await', 'task')]}
+        for i in range(0, len(ol), 6):
+            yield {'k': 'recv', 'fe': fe, 'debug': (i // 6) % 3 == 0, 'pend': busy_pend, 'hand': ['/a', '/h'],
+                   'pkts': [{'w': w.hex(), 'typ': None, 'mode': ('await', 'task')[(i // 6 + j) % 2], 'tag': t}
+                            for j, (t, w) in enumerate(ol[i:i + 6])]}
     # a packet that addresses a pending Interest delivered in the very loop turn in which that Interest ends otherwise
     # (the caller cancels its await / its lifetime runs out): reception must not fail either (oracle only)
     for fe in ('v2', 'v1'):
@@ -408,10 +648,28 @@ def cases(rng, tier):
               P['int'] + P['data/a'], P['data/a'] + b'\x00', P['nack'] + P['nack'], tlv(0x80000000, b'x'), tlv(2 ** 63, b''),
               tlv(2 ** 64 - 1, b'y'), b'\xfe\xff\xff\xff', b'\xff' + b'\xff' * 8, tlv(6, b'u' * 65536)]:
         yield {'k': 'udp', 'data': d.hex()}
+    # datagrams whose first / second / inner numbers are over-long; the values at the edges of each form
+    uds = [b'\xfd\x00\x05', b'\xfd\x00\x05\x00', b'\xfd\x00\x05\x01', b'\xfd\x00\x05\x03abc', b'\xfd\x00\x00', b'\xfd\x00\xfc\x00',
+           b'\xfd\x00\xfd\x00', b'\xfe\x00\x00\x00\x05', b'\xfe\x00\x00\x00\x05\x00', b'\xfe\x00\x00\xff\xff\x00',
+           b'\xfe\x00\x01\x00\x00\x00', b'\xff' + b'\x00' * 7 + b'\x05', b'\xff' + b'\x00' * 7 + b'\x05\x00',
+           b'\xff\x00\x00\x00\x00\xff\xff\xff\xff\x00', b'\xff\x00\x00\x00\x01\x00\x00\x00\x00\x00', b'\xfd\x00\x64\x00',
+           b'\x05\xfd\x00\x00', b'\x05\xfe\x00\x00\x00\x00', b'\x05\xff' + b'\x00' * 8, b'\x64\xfd\x00\x00']
+    for k in ('int', 'data/a', 'nack', 'lp-nofrag', 'int-signed'):
+        uds += [w for _, w in overlong_all(P[k], depth=1)]
+    for d in uds:
+        yield {'k': 'udp', 'data': d.hex()}
+    # every datagram of 0..3 bytes over the byte classes the framing distinguishes
+    firsts, rest = [0, 5, 6, 0x64, 0xfc, 0xfd, 0xfe, 0xff], [0, 5, 0xfc, 0xfd, 0xff]
+    tiny = [b''] + [bytes([a]) for a in firsts] + [bytes([a, b]) for a in firsts for b in rest]
+    tri = [bytes([a, b, c]) for a in firsts for b in rest for c in rest]
+    tiny += tri if not quick else rng.sample(tri, 40)
+    for d in tiny:
+        yield {'k': 'udp', 'data': d.hex()}
     for _ in range(10 if quick else 300):
         yield {'k': 'udp', 'data': bytes(rng.choice([0xfd, 0xfe, 0xff, 5, 6, 100, rng.randrange(256)]) for _ in range(rng.randint(0, 10))).hex()}
     # --- (b) reception -----------------------------------------------------------------------
     kinds = sorted(P)
+    okinds = sorted(O)
     n_recv = 2400 if quick else 60000
     for ci in range(n_recv):
         fe = 'v2' if ci % 2 == 0 else 'v1'
@@ -426,14 +684,16 @@ def cases(rng, tier):
         pkts = []
         for _ in range(rng.randint(1, 6)):
             r = rng.random()
-            if r < 0.12:
+            if r < 0.03:
+                tag, w = 'oddname', O[rng.choice(okinds)]
+            elif r < 0.12:
                 tag, w = 'valid', P[rng.choice(kinds)]
             elif r < 0.20:
                 tag, w = 'random', bytes(rng.randrange(256) for _ in range(rng.randint(0, 20)))
             elif r < 0.28:
                 tag, w = 'tree', tlv(rng.choice([5, 6, LP, LP]), random_tree(rng))
             else:
-                base = P[rng.choice(kinds)]
+                base = P[rng.choice(kinds)] if rng.random() < 0.93 else O[rng.choice(okinds)]
                 tag, w = mutations(base, rng, 1)[0]
                 if rng.random() < 0.15:
                     tag2, w = mutations(w, rng, 1)[0]
@@ -442,7 +702,10 @@ def cases(rng, tier):
             if rng.random() < 0.12:
                 typ = rng.choice([5, 6, LP, 0, 7, 0x320])
             pkts.append({'w': w.hex(), 'typ': typ, 'mode': rng.choice(['task', 'await']), 'tag': tag})
-        yield {'k': 'recv', 'fe': fe, 'pend': pend, 'hand': hand, 'pkts': pkts}
+        c = {'k': 'recv', 'fe': fe, 'pend': pend, 'hand': hand, 'pkts': pkts}
+        if rng.random() < 0.35:
+            c['debug'] = True       # the application logs at DEBUG level
+        yield c
 
 
 def shrink(case):
@@ -497,6 +760,8 @@ def _shrink(case):
         for i in range(len(d)):
             yield {'k': 'udp', 'data': (d[:i] + d[i + 1:]).hex()}
     else:
+        if case.get('debug'):
+            yield {k2: v for k2, v in case.items() if k2 != 'debug'}
         for i in range(len(case['pkts'])):
             yield {**case, 'pkts': case['pkts'][:i] + case['pkts'][i + 1:]}
         for i in range(len(case['pend'])):
@@ -722,6 +987,11 @@ def _pit_snapshot(rig, ids, names):
 
 
 def run_recv(case):
+    with debug_logging(case.get('debug')):
+        return _run_recv(case)
+
+
+def _run_recv(case):
     from ndn import encoding as enc, types
     fe = case['fe']
     with AppRig(fe) as rig:
@@ -1164,6 +1434,7 @@ def tags(case, impl):
         t.append(f"turn:{case['fe']}:{case['how']}:{case['what']}")
     elif case['k'] == 'recv':
         t.append(f"{case['fe']}:pend{len(case['pend'])}:hand{len(case['hand'])}")
+        t.append('debug-logging:' + ('on' if case.get('debug') else 'off'))
         for pk, rec in zip(case['pkts'], impl['trace']):
             t.append('pkt:' + pk.get('tag', '?').split('+')[0])
             t.append('mode:' + pk['mode'])
